@@ -1,5 +1,5 @@
 """Contracts for xdoctest/parser.py and the docstring-level entry points of xdoctest/core.py (C13, C14, C08.offsets, C01.tabs)."""
-from pyvc.contracts import contract, record, LoopSpec
+from pyvc.contracts import contract, record, tagged_record, tuple_record, LoopSpec, ASLIST, TUPLE_RECORDS
 
 _P = "xdoctest.parser:DoctestParser."
 record("DoctestParser", simulate_repl="bool")
@@ -56,3 +56,38 @@ contract("xdoctest.core:parse_docstr_examples",
          note="a docstring whose parser fails with DoctestParseError / MalformedDocstr yields a warning and no exception; the message "
               "construction itself cannot raise (str.format is only applied to literal templates)",
          sentinel=("never-warns", "ev_count('warnings.warn') == 0"))
+
+
+# ------------------------------------------------------------------------ C13.offsets / C08.offsets
+# An element of grouped_lines is either a (source lines, want lines) tuple or a list of text lines: a tagged record.
+tagged_record("Chunk", {"tuple": "is_code"}, is_code="bool", slines="list[str]", wlines="list[str]", lines="list[str]")
+TUPLE_RECORDS["Chunk"] = ["slines", "wlines"]       # `slines, wlines = chunk`
+ASLIST["Chunk"] = "lines"                            # len(chunk), '\n'.join(chunk) of a text chunk
+
+contract(_P + "_package_chunk",
+         params={"self": "DoctestParser", "raw_source_lines": "list[str]", "raw_want_lines": "list[str]", "lineno": "int"},
+         returns="reclist[DoctestPart]", trusted=True,
+         raises={"Exception*?": None},
+         note="assumed here: yields the parts of one chunk (ast based slicing); what matters below is the line number it is handed")
+
+_SIZE = "((len(c.slines) + len(c.wlines)) if c.is_code else len(c.lines))"
+contract(_P + "_package_groups#offsets",
+         params={"self": "DoctestParser", "grouped_lines": "reclist[Chunk]"},
+         raises={"Exception*?": None},
+         loops={0: LoopSpec(header="grouped_lines", modifies=[],
+                            invariants=[("lineno-is-the-number-of-lines-before-this-chunk",
+                                         "lineno == S.int_sum([" + _SIZE + " for c in grouped_lines[:_i0]])")],
+                            body_post=[("a-code-chunk-is-packaged-at-its-first-line",
+                                        "implies(chunk.is_code, ev_count('DoctestParser._package_chunk') == 1 and "
+                                        "ev_arg('DoctestParser._package_chunk', 0, 'lineno') == before(lineno) and "
+                                        "ev_arg('DoctestParser._package_chunk', 0, 'raw_source_lines') == chunk.slines and "
+                                        "ev_arg('DoctestParser._package_chunk', 0, 'raw_want_lines') == chunk.wlines)"),
+                                       ("a-text-chunk-is-yielded-as-its-joined-lines",
+                                        "implies(not chunk.is_code, ev_count('DoctestParser._package_chunk') == 0 and ev_count('yield') == 1 and "
+                                        "ev_arg('yield', 0, 'value') == '\\n'.join(chunk.lines))")]),
+                1: LoopSpec(header=None, modifies=[], invariants=[],
+                            body_post=[("every-part-is-yielded", "ev_count('yield') == 1 and ev_arg('yield', 0, 'value') is example")])},
+         props=["C13", "C08", "C18"], opts={"native": False},
+         note="the running line counter handed to _package_chunk is the total number of lines of all earlier chunks, so every part's "
+              "line_offset is the index of its first line in the (pre-processed) docstring",
+         sentinel=("offsets-ignore-wants", "True == False"))
